@@ -52,7 +52,7 @@ pub fn table() -> Vec<(&'static str, extern "C" fn(*const u8, usize) -> u32)> {
     reg!(chk_roundtrip_0, chk_roundtrip_1, chk_roundtrip_2, chk_roundtrip_3, chk_roundtrip_4, chk_roundtrip_5, chk_roundtrip_6,
          chk_roundtrip_7, chk_roundtrip_8, chk_roundtrip_9, chk_roundtrip_10, chk_roundtrip_long, chk_encode, chk_sound, chk_tiling,
          chk_agree, chk_capacity_0, chk_capacity_1, chk_capacity_2, chk_capacity_3, chk_capacity_4, chk_capacity_5, chk_capacity_6,
-         chk_capacity_7, chk_capacity_8, chk_capacity_default, chk_resync, chk_cut, chk_concat, chk_total, chk_arraybuf_big);
+         chk_capacity_7, chk_capacity_8, chk_capacity_default, chk_resync, chk_cut, chk_concat, chk_total, chk_arraybuf_big, chk_vec_oom);
     reg!(chk_parse_c04, chk_parse_c09, chk_parse_c13, chk_parse_c06, chk_parse_c03, chk_parse_c03w, chk_parse_c12, chk_parse_all, chk_stream_noalloc,
          chk_fix_c04, chk_fix_c09, chk_fix_c13, chk_fix_c06, chk_fix_c03,
          chk_mut_c04, chk_mut_c09, chk_mut_c13, chk_mut_c06, chk_mut_c03, chk_mut_c12, chk_gen_c03);
